@@ -59,3 +59,14 @@ theorem C13_decodeBody_gzip (hs : List Header) (htok : headerTokens hs kContentE
 
 /-- the token hypothesis is satisfiable: `Content-Encoding: gzip` -/
 example : headerTokens [⟨kContentEncoding, kGzip⟩] kContentEncoding = [kGzip] := tokens_gzip
+
+/-- C13 at `decode_body`, every stack: if the Content-Encoding tokens of `hs` are the names of the
+    layers `ls` (in order), the body encoded through `ls` comes back exactly, the Content-Encoding
+    header is removed and Content-Length is the decoded length -/
+theorem C13_decodeBody_level0_stacks (hs : List Header) (ls : List Layer)
+    (htok : headerTokens hs kContentEncoding = ls.map Layer.name) (x : Bytes) :
+    decodeBody gunzip deflateSniff hs (encLayers ls x)
+      = (setHeader (removeHeader hs kContentEncoding) kContentLength (natToDec x.length), some x) := by
+  unfold decodeBody
+  rw [htok, C13_level0_stacks]
+  simp
